@@ -348,6 +348,18 @@ class World:
             w = np.linspace(0.7, 0.2, n)
             return [np.diag(np.sqrt(w)).astype(complex), np.diag(np.sqrt(1 - w)).astype(complex)]
         # fault menus (C17)
+        if name == "nontp-complex":
+            # not trace preserving, but sum K^T K = I: only a check that forgets the conjugate accepts it
+            t = 0.4
+            k2 = np.array([[np.cosh(t), 1j * np.sinh(t)], [-1j * np.sinh(t), np.cosh(t)]], dtype=complex)
+            if n % 2:
+                return [np.eye(n, dtype=complex) * 1.1]
+            pos = d.index(2) if 2 in d else None
+            if pos is None:
+                return [np.kron(k2, np.eye(n // 2))]
+            left = int(np.prod(d[:pos]))
+            right = int(np.prod(d[pos + 1:]))
+            return [np.kron(np.kron(np.eye(left), k2), np.eye(right))]
         if name == "nontp":
             ks = OT.dilation_kraus(n, 2, 8)
             return [ks[0], 0.5 * ks[1]]
